@@ -19,7 +19,7 @@ LEVEL = "exploration"
 RULE = (
     "grid: |psi| x arg psi x mu x epsilon x (Laplacian action) per call, one call family per (gamma, u, dt); zone A (discriminant clearly positive) points are "
     "answered as one batch and checked; each zone C (clearly negative) point is submitted alone and embedded among zone A points and must be refused; "
-    "zone B (|disc| <= 1e-9 b^2) accepts either answer. recorded: every call made inside driven adaptive runs. "
+    "zone B (|disc| <= 1e-9 b^2) accepts either answer. recorded: every call made inside driven adaptive runs, and every step as a whole (the answer of adaptive_euler_step must solve the equation for the time step it reports, retries included). "
     "Non-trivial = point with psi != 0 and non-zero Laplacian action or mu; distinct = grid point (gamma,u,dt,psi,mu,eps,lap)."
 )
 ASSUMPTIONS = [
@@ -38,7 +38,7 @@ def bound(tier):
 
 
 def floors(tier):
-    return {"distinct_nontrivial": 50, "count:zoneA_points": 100000, "count:zoneC_points": 500, "count:recorded_calls": 100, "count:recorded_refusals": 1}
+    return {"distinct_nontrivial": 50, "count:zoneA_points": 100000, "count:zoneC_points": 500, "count:recorded_calls": 100, "count:recorded_refusals": 1, "count:recorded_steps_with_retries": 20}
 
 
 GAMMAS = [0.0, 0.1, 1.0, 10.0, 100.0]
@@ -266,6 +266,21 @@ def run_recorded(case):
         return out
 
     solver.solve_for_psi_squared = rec
+    # the step as a whole: what adaptive_euler_step answers must solve the equation for the time step it *reports*
+    # (after retries that is the reduced one), and that is the step length the caller records and advances the clock by
+    steps = []
+    orig_step = solver.adaptive_euler_step
+
+    def rec_step(step, psi, abs_sq_psi, mu, epsilon, dt):
+        pin, mun = np.array(psi), np.array(mu)
+        epsn = np.array(epsilon) * np.ones(len(pin))
+        lap = np.asarray(solver.operators.psi_laplacian @ pin)
+        n0 = len(calls)
+        out = orig_step(step, psi, abs_sq_psi, mu, epsilon, dt)
+        steps.append((pin, mun, epsn, float(dt), lap, np.array(out[0]), np.array(out[1]), float(out[2]), len(calls) - n0))
+        return out
+
+    solver.adaptive_euler_step = rec_step
     try:
         drivers.hand_step(solver, 20)
     except RuntimeError as exc:
@@ -289,6 +304,22 @@ def run_recorded(case):
                 continue
             keep = disc > TOLERANCES["zone"] * b * b
             check_answer(res, out[0][keep], out[1][keep], psi[keep], mu[keep], eps[keep], lap[keep], g, u, dt, {k: np.asarray(v)[keep] for k, v in ref.items()}, ctx)
+    for psi, mu, eps, dt_in, lap, p_out, x_out, dt_out, ncalls in steps:
+        res.count("recorded_steps")
+        if ncalls > 1:
+            res.count("recorded_steps_with_retries")
+        ref = psi_update(psi, mu, eps, g, u, dt_out, lap)
+        b = np.asarray(ref["b"], float)
+        disc = np.asarray(ref["disc"], float)
+        ctx = dict(gamma=g, u=u, dt=float(f"{dt_out:.3g}"))
+        if np.any(disc < -TOLERANCES["zone"] * b * b):
+            res.violate("step-answered-for-a-time-step-without-solution", retries=bool(ncalls > 1), **ctx, detail={"dt_in": dt_in, "dt_reported": dt_out, "calls": ncalls})
+            continue
+        keep = disc > TOLERANCES["zone"] * b * b
+        nv = len(res.violations)
+        check_answer(res, p_out[keep], x_out[keep], psi[keep], mu[keep], eps[keep], lap[keep], g, u, dt_out, {k: np.asarray(v)[keep] for k, v in ref.items()}, dict(ctx, step_level=True))
+        if len(res.violations) > nv:
+            res.violations[-1]["detail"].update(dt_in=dt_in, dt_reported=dt_out, calls=ncalls)
     res.nontrivial = len(calls) > 5
     res.outcome = "recorded"
     return res
